@@ -495,7 +495,7 @@ pub fn edited(bytes: &[u8], edits: &[&str]) -> Result<(Beatmap, String, Beatmap,
 pub fn impl_edit(bytes: &[u8], edits: &[&str]) -> String {
     match edited(bytes, edits) {
         Ok((_m, t, m2, _)) => format!("ok {} ## {}", hex(t.as_bytes()), dump_beatmap(&m2)),
-        Err(e) => e,
+        Err(e) => if e.starts_with("bad-edit") { "bad-edit".to_owned() } else { e },
     }
 }
 
@@ -527,7 +527,9 @@ pub fn prop_edit(bytes: &[u8], edits: &[&str]) -> String {
             edited_keys.push(k.to_owned());
         }
     }
-    let structural = names.iter().any(|n| matches!(*n, "mode" | "slider_multiplier" | "slider_tick_rate"));
+    // edits that the decoder's own map-level processing (C15) propagates into objects / timelines:
+    // mode and slider multiplier (velocity, curves, scroll speed), tick rate, and breaks (forced new combo)
+    let structural = names.iter().any(|n| matches!(*n, "mode" | "slider_multiplier" | "slider_tick_rate" | "breaks"));
     let get = |v: &[(String, String)], k: &str| v.iter().find(|x| x.0 == k).map(|x| x.1.clone());
     // 1. the edit survives
     for k in &edited_keys {
